@@ -26,7 +26,7 @@ theorem grow_spec (mem : List P) (na n : Nat) (h : mem.length = na) :
 
 /-! ### the shift loop of the sorted removal -/
 
-theorem shiftLoop_spec : ∀ (cnt : Nat) (mem : List P) (j : Nat), j + cnt < mem.length →
+theorem shiftLoop_spec {α : Type} : ∀ (cnt : Nat) (mem : List α) (j : Nat), j + cnt < mem.length →
     ∃ m', shiftLoop mem j cnt = some m' ∧ m'.length = mem.length ∧
       ∀ k, m'[k]? = if j ≤ k ∧ k < j + cnt then mem[k + 1]? else mem[k]? := by
   intro cnt
@@ -463,6 +463,25 @@ theorem take_flag (mem : List P) (n idx : Nat) (p : P) (f : P → P) (hn : n ≤
     · subst hii; rw [if_pos rfl, if_pos (by omega), hp]; simp
     · rw [if_neg hii]; cases mem[i]? <;> simp [hii]
   · rw [if_neg hi, if_neg hi]; simp
+
+/-- what the MERCURIUS `dcrit` shift loop leaves behind, as a list -/
+theorem shift_eq_erased {α : Type} (l d : List α) (m j : Nat) (hm : m ≤ l.length) (hj : j < m)
+    (hl : d.length = l.length)
+    (hk : ∀ k, d[k]? = if j ≤ k ∧ k < j + (m - 1 - j) then l[k + 1]? else l[k]?) :
+    d = (l.take m).eraseIdx j ++ l.drop (m - 1) := by
+  apply List.ext_getElem?; intro k
+  have hlen : ((l.take m).eraseIdx j).length = m - 1 := by
+    rw [List.length_eraseIdx, List.length_take]
+    have : min m l.length = m := by omega
+    rw [this, if_pos hj]
+  rw [hk, List.getElem?_append, hlen]
+  by_cases hk1 : k < m - 1
+  · rw [if_pos hk1, List.getElem?_eraseIdx, List.getElem?_take, List.getElem?_take]
+    by_cases hkj : k < j
+    · rw [if_neg (by omega), if_pos hkj, if_pos (by omega)]
+    · rw [if_pos (by omega), if_neg hkj, if_pos (by omega)]
+  · rw [if_neg hk1, if_neg (by omega), List.getElem?_drop]
+    congr 1; omega
 
 theorem getLast_take (mem : List P) (n : Nat) (hn : n + 1 ≤ mem.length) :
     (mem.take (n + 1)).getLast? = mem[n]? := by
